@@ -65,16 +65,21 @@ type req5 struct {
 	Form   string `json:"form"`   // origin | origin-nohost | origin-nohost10 | abs-https | abs-https-nohost | abs-http | abs-http-nohost
 	Target string `json:"target"` // literal request-target
 	Proto  string `json:"proto"`
-	Host   string `json:"host"`          // literal Host header ("" = none)
-	Hij    string `json:"hij,omitempty"` // "" | req | res
-	Up     string `json:"up,omitempty"`  // "" | plainreply: the origin answers the TLS ClientHello for this request's (own) host with plain bytes
+	Host   string `json:"host"`           // literal Host header ("" = none)
+	Hij    string `json:"hij,omitempty"`  // "" | req | res
+	Pipe   bool   `json:"pipe,omitempty"` // written to the connection together with the previous request (pipelined, one write)
+	Up     string `json:"up,omitempty"`   // "" | plainreply: the origin answers the TLS ClientHello for this request's (own) host with plain bytes
 }
 
 type conn5 struct {
 	T     string `json:"t"`              // label: the CONNECT exchange id is T; default tunnel host is T.vh.test
 	Auth  string `json:"auth,omitempty"` // literal CONNECT authority as the client sends it ("" = T.vh.test:443)
 	Inner string `json:"inner"`          // tls | clear
-	Reqs  []req5 `json:"reqs"`
+	// Pre: complete exchanges on the same client connection before the CONNECT:
+	// "get" = a proxied absolute-form GET, "connect-clear" = a CONNECT to
+	// another authority carrying one cleartext request.
+	Pre  []string `json:"pre,omitempty"`
+	Reqs []req5   `json:"reqs"`
 }
 
 type c05Case struct {
@@ -191,6 +196,12 @@ func genCase(rng *rand.Rand, stream string, idx int, race bool) c05Case {
 			}
 		}
 		ai := parseAuth(cs)
+		if c.Listener != "tls" && rng.Intn(100) < 40 {
+			for k, n := 0, 1+rng.Intn(2); k < n; k++ {
+				cs.Pre = append(cs.Pre, []string{"get", "get", "get", "connect-clear"}[rng.Intn(4)])
+			}
+		}
+		pipelining := rng.Intn(100) < 35
 		nreq := 1 + rng.Intn(8)
 		hijAt := -1
 		if rng.Intn(100) < 35 {
@@ -246,6 +257,9 @@ func genCase(rng *rand.Rand, stream string, idx int, race bool) c05Case {
 			if i == hijAt {
 				q.Hij = []string{"req", "res"}[rng.Intn(2)]
 			}
+			if pipelining && i > 0 && rng.Intn(100) < 60 {
+				q.Pipe = true
+			}
 			// upstream fault: the host of this request (its own, so that no other
 			// exchange is affected) answers the TLS ClientHello with plain bytes
 			if own && cs.Inner == "tls" && q.Hij == "" && !strings.HasPrefix(q.Form, "origin-nohost") && rng.Intn(2) == 0 {
@@ -284,8 +298,12 @@ type robs struct {
 	q    req5
 	idx  int
 	sent bool
-	resp *modx.Resp
-	cerr error
+	// reached: the client got as far as reading the answer to this request (an
+	// earlier request of a pipelined group may have failed first)
+	reached bool
+	grp     string // single | pipelined-first | pipelined-later
+	resp    *modx.Resp
+	cerr    error
 	// hijack: what the client saw
 	gotSentinel string
 	sentErr     error
@@ -323,6 +341,32 @@ func runConn(g *modx.Rig, c c05Case, cs conn5, out *connOut) {
 	}
 	out.cl = cl
 	ai := parseAuth(cs)
+	for k, kind := range cs.Pre {
+		x := fmt.Sprintf("%sp%d", cs.T, k)
+		h := modx.Host(x)
+		g.Rec.SetAction(x, modx.NewAction())
+		var err error
+		var resp *modx.Resp
+		switch kind {
+		case "get":
+			if err = cl.Send(fmt.Sprintf("GET http://%s/%s HTTP/1.1\r\nHost: %s\r\nX-Vh-Id: %s\r\n\r\n", h, x, h, x)); err == nil {
+				resp, err = cl.ReadResponse("GET")
+			}
+		case "connect-clear":
+			if err = cl.Send(fmt.Sprintf("CONNECT %s:443 HTTP/1.1\r\nHost: %s:443\r\nX-Vh-Id: %s\r\n\r\n", h, h, x)); err == nil {
+				if resp, err = cl.ReadResponse("CONNECT"); err == nil && resp.Status == 200 {
+					g.Rec.SetAction(x+"i", modx.NewAction())
+					if err = cl.Send(fmt.Sprintf("GET /%si HTTP/1.1\r\nHost: %s\r\nX-Vh-Id: %si\r\n\r\n", x, h, x)); err == nil {
+						resp, err = cl.ReadResponse("GET")
+					}
+				}
+			}
+		}
+		if err != nil || resp == nil || resp.Status != 200 {
+			out.harness = fmt.Sprintf("exchange %q before the CONNECT did not complete with 200: %v %v", kind, resp, err)
+			return
+		}
+	}
 	if c.Listener != "tls" {
 		a := modx.NewAction()
 		a.Srv = cl.Srv
@@ -346,51 +390,73 @@ func runConn(g *modx.Rig, c c05Case, cs conn5, out *connOut) {
 		st := cl.TLS.ConnectionState()
 		out.cstate = &st
 	}
-	for i, q := range cs.Reqs {
-		o := &robs{q: q, idx: i}
-		out.obs = append(out.obs, o)
-		a := modx.NewAction()
-		a.Srv = cl.Srv
-		a.HijackReq, a.HijackRes = q.Hij == "req", q.Hij == "res"
-		g.Rec.SetAction(q.X, a)
-		if q.Up == "plainreply" {
-			g.O.SetPlainReply(modx.Host(q.X))
+	for i := 0; i < len(cs.Reqs); {
+		// a group = one request plus the requests pipelined behind it, sent in one write
+		j := i + 1
+		for j < len(cs.Reqs) && cs.Reqs[j].Pipe {
+			j++
 		}
-		if err := cl.Send(render(q)); err != nil {
-			o.cerr = err
-			return
-		}
-		o.sent = true
-		if q.Hij != "" {
-			// the hijacker writes a sentinel on the connection it was handed;
-			// the client only ever reads through its TLS session
-			cl.Raw.SetReadDeadline(time.Now().Add(modx.Watchdog))
-			line, err := readLine(cl.BR, 200)
-			o.gotSentinel, o.sentErr = line, err
-			if err == nil && line == sentinel(q.X) {
-				o.ackErr = cl.Send(ack(q.X))
-				// wait for the hijacker to have read the reply (in-process signal)
-				select {
-				case <-a.Returned:
-				case <-time.After(modx.Watchdog):
-					out.harness = "watchdog: hijacker did not return"
-				}
-			} else {
-				// unblock a hijacker that is reading the wrong connection
-				cl.Close()
-				select {
-				case <-a.Returned:
-				case <-time.After(modx.Watchdog):
-					out.harness = "watchdog: hijacker did not return"
+		var sb strings.Builder
+		var group []*robs
+		var acts []*modx.Action
+		for k := i; k < j; k++ {
+			q := cs.Reqs[k]
+			o := &robs{q: q, idx: k, grp: "single"}
+			if j-i > 1 {
+				o.grp = "pipelined-later"
+				if k == i {
+					o.grp = "pipelined-first"
 				}
 			}
+			out.obs = append(out.obs, o)
+			group = append(group, o)
+			a := modx.NewAction()
+			a.Srv = cl.Srv
+			a.HijackReq, a.HijackRes = q.Hij == "req", q.Hij == "res"
+			g.Rec.SetAction(q.X, a)
+			acts = append(acts, a)
+			if q.Up == "plainreply" {
+				g.O.SetPlainReply(modx.Host(q.X))
+			}
+			sb.WriteString(render(q))
+		}
+		if err := cl.Send(sb.String()); err != nil {
+			group[0].cerr = err
 			return
 		}
-		resp, err := cl.ReadResponse("GET")
-		o.resp, o.cerr = resp, err
-		if err != nil {
-			return
+		for _, o := range group {
+			o.sent = true
 		}
+		for k, o := range group {
+			q, a := o.q, acts[k]
+			o.reached = true
+			if q.Hij != "" {
+				// the hijacker writes a sentinel on the connection it was handed;
+				// the client only ever reads through its TLS session
+				cl.Raw.SetReadDeadline(time.Now().Add(modx.Watchdog))
+				line, err := readLine(cl.BR, 200)
+				o.gotSentinel, o.sentErr = line, err
+				if err == nil && line == sentinel(q.X) {
+					o.ackErr = cl.Send(ack(q.X))
+				} else {
+					// unblock a hijacker that is reading the wrong connection
+					cl.Close()
+				}
+				// wait for the hijacker to have returned (in-process signal)
+				select {
+				case <-a.Returned:
+				case <-time.After(modx.Watchdog):
+					out.harness = "watchdog: hijacker did not return"
+				}
+				return
+			}
+			resp, err := cl.ReadResponse("GET")
+			o.resp, o.cerr = resp, err
+			if err != nil {
+				return
+			}
+		}
+		i = j
 	}
 }
 
@@ -523,12 +589,20 @@ func runCase(r *vh.Run, ca *modx.CA, c c05Case) {
 			}
 			r.Eval(1)
 			if len(cl) == 0 {
+				if !ro.reached {
+					// pipelined behind a request whose answer never came; reported there
+					r.Count("pipelined_requests_not_reached", 1)
+					continue
+				}
 				r.Inconclusive("no modifier call observed for a request sent inside the tunnel", wit(nil))
 				continue
 			}
 			when := "first-request"
 			if ro.idx > 0 {
 				when = "later-request"
+			}
+			if len(cs.Pre) > 0 {
+				when += "/reused-connection" // the CONNECT was not the first exchange of its connection
 			}
 			hostViolated := false
 			for _, cc := range cl {
@@ -573,18 +647,24 @@ func runCase(r *vh.Run, ca *modx.CA, c c05Case) {
 						}
 					}
 				}
-				if q.Hij != "req" && q.Up == "" && len(arrX[q.X]) == 0 && !hostViolated {
+				if ro.reached && q.Hij != "req" && q.Up == "" && len(arrX[q.X]) == 0 && !hostViolated {
 					r.Violation("C05:forwarded:"+q.Form, "a request decrypted from the tunnel never reached the origin", wit(nil))
 				}
 			}
-			if q.Hij == "" {
+			if !ro.reached {
+				r.Count("pipelined_requests_not_reached", 1)
+			} else if q.Hij == "" {
 				switch {
 				case modx.IsWatchdog(ro.cerr):
 					r.Inconclusive("watchdog: no response to a request inside the tunnel", wit(nil))
 				case ro.cerr != nil && cs.Inner != "tls":
 					r.Inconclusive("no complete response to a cleartext request inside the tunnel: "+ro.cerr.Error(), wit(nil))
 				case ro.cerr != nil:
-					r.Violation("C05:response-in-session:"+q.Form, "no complete response came back inside the client's session (the client reads only through it)", wit(nil))
+					rc := q.Form
+					if ro.grp != "single" {
+						rc = "pipelined"
+					}
+					r.Violation("C05:response-in-session:"+rc, "no complete response came back inside the client's session, in order (the client reads only through it)", wit(map[string]interface{}{"pipelining": ro.grp}))
 				}
 			} else {
 				var ho *modx.HijackObs
@@ -633,6 +713,12 @@ func runCase(r *vh.Run, ca *modx.CA, c c05Case) {
 			}
 			r.Class(fmt.Sprintf("%s/%s/idx%s/%s/%s", lclass, cs.Inner, idxBucket(ro.idx), q.Form, hj))
 			r.Class("authority/" + ai.kind + "/" + q.Form)
+			pre := "none"
+			if len(cs.Pre) > 0 {
+				pre = strings.Join(cs.Pre, "+")
+			}
+			r.Class(fmt.Sprintf("history/pre-%s/%s/%s/idx%s", pre, lclass, cs.Inner, idxBucket(ro.idx)))
+			r.Class(fmt.Sprintf("pipeline/%s/%s/%s", ro.grp, cs.Inner, hj))
 		}
 	}
 	if c.Idx == 0 {
